@@ -18,8 +18,8 @@ import (
 type urlExpect struct {
 	skip bool // the property does not determine the result
 	err  bool
-	out string
-	why string
+	out  string
+	why  string
 }
 
 // refURL is the independent model. live=nil means "no router" (mux.URL).
